@@ -53,6 +53,10 @@ type sendInfo struct {
 	callback bool
 	receiver common.Address
 	expectFail string // non-empty: the generator expects this send to fail (probe only)
+	agentFee     *big.Int
+	agentDst     int
+	agentDstName string
+	agentRecv    common.Address
 }
 
 type updInfo struct {
@@ -176,6 +180,8 @@ func (w *world) apply(op kernel.Op) {
 		w.opDrop(op)
 	case "settle":
 		w.settle(int(op.Arg(0)))
+	case "pump":
+		w.pump(kernel.Mod(op.Arg(0), len(w.relayers)))
 	case "crash":
 		w.opCrash(op)
 	case "export":
@@ -278,8 +284,35 @@ func (w *world) opSend(op kernel.Op) {
 		ccd.ContractAddress = lower(packetAddr)
 		ccd.CallData = pack(packetABI, "setSequence", c.Cfg.Name, uint64(77))
 	case callAgent:
-		ccd.ContractAddress, ccd.CallData = "", nil
-		si.call = callNone
+		// tokens go to the agent contract on the destination, which forwards them to a third chain
+		// (or back home) in a nested send
+		if dstChain != nil && si.tok != nil && si.amount.Sign() > 0 {
+			var thirds []*xchain
+			for _, o := range w.chains {
+				if o.idx != dstChain.idx {
+					thirds = append(thirds, o)
+				}
+			}
+			third := thirds[kernel.Mod(op.Arg(7)/2, len(thirds))]
+			thirdName := third.Cfg.Name
+			if op.Arg(6) == 3 {
+				thirdName = "nowhere-9" // nested send to a chain without client
+			}
+			dt := w.dstTokenFor(c.idx, dstChain.idx, si.tok)
+			if dt != nil {
+				fee := new(big.Int).Div(si.amount, big.NewInt(2+op.Arg(7)%3))
+				si.agentFee, si.agentDst, si.agentDstName = fee, third.idx, thirdName
+				si.agentRecv = ru.Eth
+				ccd.Receiver = lower(agentAddr)
+				ccd.ContractAddress = lower(agentAddr)
+				ccd.CallData = pack(agentABI, "send", dt.Addr, lower(ru.Eth), thirdName, fee)
+				si.receiver = agentAddr
+			} else {
+				si.call = callNone
+			}
+		} else {
+			si.call = callNone
+		}
 	}
 	if dstChain == nil && si.call != callHookFail && si.call != callPrivileged {
 		si.call = callNone
@@ -708,4 +741,23 @@ func kindRank(k string) int {
 		return 0
 	}
 	return 1
+}
+
+// pump: one honest relayer burst (still subject to partitions, stalls and pending corruption).
+func (w *world) pump(r int) {
+	for _, m := range w.pendingFor(r) {
+		w.submitRelay(r, m, 0, false, false)
+	}
+	w.now = w.now.Add(5 * time.Second)
+	for _, c := range w.chains {
+		if c.Halted != "" || w.now.Before(c.stallTo) {
+			continue
+		}
+		txs := c.mempool
+		c.mempool = nil
+		w.produceBlock(c, txs)
+		if w.fatal() {
+			return
+		}
+	}
 }
